@@ -297,6 +297,17 @@ static Result run_box(const Case &c) {
         for (int i = 0; i < n; i++) frs.push_back(&s.frags[i]);
         { FragSet fset; fset.build(frs, {}); DecodeOut o = decode(d, fset, s.fraglen, 0);
           if (o.rc != 0 || o.out != data) r.fail("decode of the complete stripe failed or returned wrong data (rc=" + std::to_string(o.rc) + ")"); }
+        if (real) {
+            // fragment lists longer than k+m (and longer than 32 entries) are legal: duplicates are allowed
+            for (int total : {n + 1, 33, 70}) for (int force = 0; force < 2; force++) {
+                std::vector<const std::vector<uint8_t> *> lf;
+                for (int i = 0; i < total; i++) lf.push_back(&s.frags[(i * 7 + 1) % n]);
+                for (int i = 0; i < n; i++) lf[(size_t)(total - 1 - i) % lf.size()] = &s.frags[i];      // every index present, unique copies late in the list
+                FragSet fset; fset.build(lf, {});
+                DecodeOut o = decode(d, fset, s.fraglen, force);
+                if (o.rc != 0 || o.out != data) r.fail("decode of a " + std::to_string(total) + "-entry list with duplicates (force=" + std::to_string(force) + ") failed or returned wrong data (rc=" + std::to_string(o.rc) + ")");
+            }
+        }
         if (real && g.m >= 1) {
             int t = g.backend == ref::B_XOR ? g.hd - 1 : g.m;
             int e = std::min(t, n - g.k);
